@@ -1,4 +1,4 @@
-import Pds.Proofs.KernelTie.Ctor
+import Pds.Proofs.KernelTie.CtorHll
 /-!
 # C20 — tie by translation: the constructor the deserialiser ends in
 
